@@ -70,12 +70,11 @@ func (cache *httpCache) makeURL(key []byte) string {
 }
 
 // write writes a series of files into the given Writer.
-func (cache *httpCache) write(w io.WriteCloser, target *core.BuildTarget, files []string) {
-	defer w.Close()
+// If any of them cannot be read the pipe is closed with that error, so the request fails
+// instead of storing an archive that is missing files.
+func (cache *httpCache) write(w *io.PipeWriter, target *core.BuildTarget, files []string) {
 	gzw := gzip.NewWriter(w)
-	defer gzw.Close()
 	tw := tar.NewWriter(gzw)
-	defer tw.Close()
 	outDir := target.OutDir()
 
 	for _, out := range files {
@@ -83,9 +82,19 @@ func (cache *httpCache) write(w io.WriteCloser, target *core.BuildTarget, files 
 			return storeFile(tw, name)
 		}); err != nil {
 			log.Warning("Error uploading artifacts to HTTP cache: %s", err)
-			// TODO(peterebden): How can we cancel the request at this point?
+			w.CloseWithError(err)
+			return
 		}
 	}
+	if err := tw.Close(); err != nil {
+		w.CloseWithError(err)
+		return
+	}
+	if err := gzw.Close(); err != nil {
+		w.CloseWithError(err)
+		return
+	}
+	w.Close()
 }
 
 func storeFile(tw *tar.Writer, name string) error {
